@@ -217,6 +217,7 @@ class Interp:
         is_file = spec['kind'] == 'file'
 
         def fn(builder, *a, **kw):
+            fn.entered.append(1)
             B = self.wrap(builder)
             if is_file:
                 path = a[0]
@@ -240,6 +241,7 @@ class Interp:
                 return fr.retval
             return 'r' + digest([fid, variant, fr.obs])
         fn.__name__ = 'fn_' + fid
+        fn.entered = []
         return fn
 
     def enter(self, fr):
@@ -338,13 +340,13 @@ class Interp:
                 raise
             except Exception as e:
                 self.note_injected(e, 'f', path, None, None, None)
-                self.after_bf(fr, path, False, e, n_before)
+                self.after_bf(fr, path, False, e, bool(func.entered))
                 if not catch or getattr(e, '_fbsim_fatal', False):
                     raise
                 fr.obs.append(['bf', rel, '!' + type(e).__name__])
                 return
             self.last_raw = r
-            self.after_bf(fr, path, True, None, n_before)
+            self.after_bf(fr, path, True, None, bool(func.entered))
             fr.obs.append(['bf', rel, typed_repr(r)])
         elif op == 'sb':
             _, fid, args, kwargs, catch = st[:5]
@@ -468,7 +470,7 @@ class Interp:
                           jround(dict(unjson(kwargs))))
         self.injected_calls.append((key, type(e)))
 
-    def after_bf(self, fr, path, ok, exc, n_before):
+    def after_bf(self, fr, path, ok, exc, entered):
         """Physical post-conditions of build_file (C10), real mode only."""
         if self.mode != 'real':
             return
@@ -483,7 +485,6 @@ class Interp:
                     self.viol.append(
                         ('C10', 'output-bytes-differ-after-return', rel))
         else:
-            entered = ('f:' + rel) in self.order[n_before:]
             if entered and os.path.lexists(path):
                 self.viol.append(('C10', 'target-left-after-failure', rel))
 
